@@ -1654,3 +1654,569 @@ def rule_pyx_too_many(ctx):
                               % (what, consuming, ndim, how))
     r.positive_control(True, 'structural')
     return r
+
+
+# ==============================================================================================================
+# Fifth round: C16-PACK -- the static *type* of a sliced memoryview (ExprNodes.MemoryViewIndexNode.analyse_types)
+# ==============================================================================================================
+# The item-access code generator trusts the axis specification of the static type: a `contig` axis is indexed as `((T *) data) + i`
+# without reading strides[], a `follow` axis makes the type count as C / Fortran contiguous (memcpy-style copies), a `ptr` axis is
+# dereferenced, a `direct` axis is not.  The index loop of analyse_types derives the axis specifications of `m[...]` from those of `m`;
+# what it may claim is a necessary condition for every later item access through the result:
+#   * the k-th index that consumes a dimension (integer or slice) reads the specification of source axis k (None consumes nothing);
+#   * an integer index contributes no axis, a None index a fresh axis that is not dereferenced, a slice exactly one axis;
+#   * a sliced axis keeps the access mode of its source axis (or the self-checking `full`);
+#   * a sliced axis may keep the packing of its source axis only when the slice provably leaves the stride alone -- no step, or a step
+#     whose compile-time constant equals 1 -- and must be `strided` otherwise (step -1 reverses, 2 skips, a run-time step is unknown).
+# The method is folded (checker's own evaluator, model nodes; nothing of /repo is run) on every sequence of index kinds over the complete
+# partition of what a step can be at compile time, for all access/packing layouts of 1- and 2-dimensional views.
+from .sC15 import NOT_CONST, NOT_SET
+
+# step classes: name -> (constant_result or sentinel / 'absent', stride preserved?, text)
+STEP_CLASSES = [
+    ('absent', 'absent', True, ''),
+    ('one', 1, True, ':1'),
+    ('true', True, True, ':True'),
+    ('minus-one', -1, False, ':-1'),
+    ('two', 2, False, ':2'),
+    ('minus-two', -2, False, ':-2'),
+    ('zero', 0, False, ':0'),
+    ('run-time', NOT_CONST, False, ':step'),
+    ('not-computed', NOT_SET, False, ':<expr>'),
+]
+PACK_LAYOUTS = [
+    [('direct', 'contig')], [('direct', 'strided')], [('ptr', 'strided')], [('full', 'contig')], [('ptr', 'contig')],
+    [('direct', 'follow'), ('direct', 'contig')], [('direct', 'contig'), ('direct', 'follow')],
+    [('ptr', 'strided'), ('direct', 'contig')], [('full', 'strided'), ('direct', 'strided')], [('direct', 'contig'), ('ptr', 'strided')],
+]
+
+
+def _pack_bound(name, value):
+    """model of a slice bound / step expression after ConstantFolding"""
+    if value == 'absent':
+        m = MNode('absent %s' % name, is_none=True, is_slice=False, is_literal=True, constant_result=None, pos=POS, __isa__=())
+        m.attrs['has_constant_result'] = lambda: True
+        return m
+    const = not (value is NOT_CONST or value is NOT_SET)
+    m = MNode('%s expression' % name, is_none=False, is_slice=False, is_literal=const, is_name=not const, constant_result=value, pos=POS, __isa__=(),
+              type=MNode('type of %s' % name, is_int=True, is_pyobject=False, is_error=False))
+    if const:
+        m.attrs['value'] = str(int(value))
+    m.attrs['has_constant_result'] = lambda: const
+    m.attrs['coerce_to'] = lambda t, env: m
+    m.attrs['coerce_to_temp'] = lambda env: m
+    m.attrs['analyse_types'] = lambda env: m
+    return m
+
+
+def _pack_index(kind):
+    """kind: 'N' | 'I' | 'F' (a bare `:`) | ('S', step class name)"""
+    if kind == 'F':
+        m = MNode('full slice', __kind__='F', is_none=False, is_slice=True, pos=POS, __isa__=(),
+                  start=_pack_bound('start', 'absent'), stop=_pack_bound('stop', 'absent'), step=_pack_bound('step', 'absent'))
+    elif kind == 'N':
+        m = MNode('None index', __kind__='N', is_none=True, is_slice=False, pos=POS, __isa__=())
+    elif kind == 'I':
+        m = MNode('integer index', __kind__='I', is_none=False, is_slice=False, pos=POS, __isa__=(),
+                  type=MNode('C integer type', is_int=True, is_pyobject=False, is_error=False))
+        m.attrs['coerce_to'] = lambda t, env: m
+    else:
+        value = next(v for n, v, _, _ in STEP_CLASSES if n == kind[1])
+        m = MNode('slice index', __kind__=kind, is_none=False, is_slice=True, pos=POS, __isa__=(),
+                  start=_pack_bound('start', NOT_CONST), stop=_pack_bound('stop', 'absent'), step=_pack_bound('step', value))
+    m.attrs['analyse_types'] = lambda env: m
+    return m
+
+
+def _pack_show(seq):
+    def one(k):
+        if k == 'N':
+            return 'None'
+        if k == 'I':
+            return 'i'
+        if k == 'F':
+            return ':'
+        return 'a:' + next(t for n, _, _, t in STEP_CLASSES if n == k[1])
+    return 'm[%s]' % ', '.join(one(k) for k in seq)
+
+
+def pack_domain():
+    slices = [('S', n) for n, _, _, _ in STEP_CLASSES]
+    kinds = ['N', 'I', 'F'] + slices
+    small = ['N', 'I', 'F', ('S', 'minus-one')]
+    for layout in PACK_LAYOUTS:
+        ndim = len(layout)
+        seqs = [(k,) for k in kinds] + [(a, b) for a in kinds for b in kinds]
+        if ndim == 2:
+            seqs += [(a, b, c) for a in small for b in small for c in small]
+        for seq in seqs:
+            if sum(1 for k in seq if k != 'N') <= ndim:
+                yield layout, seq
+
+
+def pack_reference(layout, seq):
+    """-> list of (access choices, packing choices, description) per result axis"""
+    out, src = [], 0
+    full = [('S', 'absent') if k == 'F' else k for k in seq] + [('S', 'absent')] * (len(layout) - sum(1 for k in seq if k != 'N'))
+    for k in full:
+        if k == 'N':
+            out.append(({'direct', 'full'}, {'strided', 'contig', 'follow'}, 'new axis', None))
+            continue
+        access, packing = layout[src]
+        if k != 'I':
+            keeps = next(p for n, _, p, _ in STEP_CLASSES if n == k[1])
+            out.append(({access, 'full'}, {'strided', packing} if keeps else {'strided'}, 'slice of source axis %d %r with step class %s' % (src, layout[src], k[1]), k[1]))
+        src += 1
+    return out
+
+
+# class attributes the two node classes inherit from ExprNode / BufferIndexNode (ExprNodes.py: `is_memview_slice = False`, ...)
+PACK_NODE_DEFAULTS = {'is_memview_slice': False, 'is_memview_index': False, 'writable_needed': False, 'is_temp': False, 'use_managed_ref': True, 'index': None}
+
+
+def _merged_class(classes):
+    """one synthetic class for a linear chain [derived, base]: methods of the derived class first; -> (ClassDef, {class attribute: constant})"""
+    body, seen, consts = [], set(), {}
+    for c in classes:
+        for n in c.body:
+            if isinstance(n, ast.FunctionDef) and n.name not in seen:
+                seen.add(n.name)
+                body.append(n)
+            elif isinstance(n, ast.Assign) and len(n.targets) == 1 and isinstance(n.targets[0], ast.Name) and isinstance(n.value, ast.Constant):
+                consts.setdefault(n.targets[0].id, n.value.value)
+    return ast.ClassDef(name=classes[0].name, bases=[], keywords=[], body=body, decorator_list=[]), consts
+
+
+def pack_table(folder, fname, index_cls, slice_cls, report, modules):
+    """fold <fname> on every (layout, index sequence): indexings that produce a view go through the slice node class up to the construction of the result type,
+    complete integer indexings through the index node class (their result has no axes)"""
+    n = 0
+    icls, iconsts = _merged_class([index_cls])
+    scls, sconsts = _merged_class([slice_cls, index_cls])
+    for layout, seq in pack_domain():
+        n += 1
+        what = 'analyse_types of %s for a view with axes %s' % (_pack_show(seq), layout)
+        captured, errors = [], []
+        folder._globals[(EXN, 'error')] = lambda pos, msg, *a: errors.append(msg)
+        folder._globals[(MVPY, 'error')] = folder._globals[(EXN, 'error')]
+        base_type = MNode('memoryview type', ndim=len(layout), axes=list(layout), dtype=MNode('dtype'), is_memoryviewslice=True, writable_needed=False, is_pyobject=False)
+        base = MNode('base', type=base_type, is_name=True, is_attribute=False, entry=MNode('entry', type=base_type), pos=POS)
+        base.attrs['is_simple'] = lambda: True
+        base.attrs['result_in_temp'] = lambda: False
+        is_view = any(k != 'I' for k in seq) or len(seq) < len(layout)
+        cls, consts = (scls, sconsts) if is_view else (icls, iconsts)
+        selfm = MNode(cls.name, cls, **dict(dict(PACK_NODE_DEFAULTS, **consts), base=base, indices=[_pack_index(k) for k in seq], pos=POS, type=None, __rel__=EXN, __isa__=()))
+        if not is_view:
+            def analyse_operation(env, getting, axes, _c=captured, _s=selfm):
+                _c.append(list(axes))
+                return _s
+            selfm.attrs['analyse_operation'] = analyse_operation
+        selfm.attrs['wrap_in_nonecheck_node'] = lambda env: None
+        envm = MNode('scope', nogil=False, directives={})
+        folder.steps = 0
+        fdef = next((m for m in cls.body if m.name == fname), None)
+        try:
+            res = Closure(folder, fdef, Env(dict(modules), None, EXN))(selfm, envm)
+        except Unfoldable as x:
+            raise AnalysisError('C16-PACK cannot fold %s: %s' % (what, x))
+        except AnalysisError:
+            raise
+        except Exception as x:
+            report('crash', '%s raises %s: %s' % (what, type(x).__name__, x))
+            continue
+        if is_view and not errors:
+            t = res.attrs.get('type') if isinstance(res, MNode) else None
+            if not (isinstance(t, MNode) and isinstance(t.attrs.get('axes'), list)):
+                raise AnalysisError('C16-PACK: %s does not leave a memoryview type in .type of the node it returns (%r)' % (what, t))
+            captured.append(list(t.attrs['axes']))
+        if errors:
+            report('valid-index-rejected', '%s reports the compile error %r for a valid index' % (what, errors[0]))
+            continue
+        if len(captured) != 1:
+            raise AnalysisError('C16-PACK: %s hands its axes to analyse_operation %d times; the rule reads the result axes there' % (what, len(captured)))
+        got, want = captured[0], pack_reference(layout, seq)
+        if not all(isinstance(a, tuple) and len(a) == 2 and all(isinstance(x, str) for x in a) for a in got):
+            raise AnalysisError('C16-PACK: %s builds axes %r, not (access, packing) pairs' % (what, got))
+        if len(got) != len(want):
+            report('axis-count', '%s gives the result type %d axes %s, the indexing has %d result dimensions (an integer index removes an axis, None adds one, '
+                   'a slice keeps one)' % (what, len(got), got, len(want)))
+            continue
+        for j, ((access, packing), (accs, packs, desc, step)) in enumerate(zip(got, want)):
+            if access not in accs:
+                report('access:%s' % ('newaxis' if step is None and desc == 'new axis' else 'slice'),
+                       '%s: result axis %d (%s) is typed %r; its access mode must be %s: item access would %s' % (
+                           what, j, desc, (access, packing), ' or '.join(sorted(accs)),
+                           'dereference a pointer that is not there' if access == 'ptr' else 'not follow the pointers of an indirect dimension'))
+            if packing not in packs and desc != 'new axis':
+                report('packing:%s' % step,
+                       '%s: result axis %d (%s) is typed %r, but only %s is established for it: a %r axis is %s, so items of the sliced view are read and written '
+                       'at the wrong addresses' % (what, j, desc, (access, packing), ' or '.join(repr(x) for x in sorted(packs)), packing,
+                                                   'indexed as data + i without reading strides[]' if packing == 'contig' else 'counted as part of a contiguous block'))
+    return n
+
+
+_PACK_PC = '''
+def analyse_types(self, env, getting=True):
+    from . import MemoryView
+    have_slices, indices, newaxes = MemoryView.unellipsify(self.indices, self.base.type.ndim)
+    axes = []
+    axis_idx = 0
+    for i, index in enumerate(indices):
+        index = index.analyse_types(env)
+        if index.is_none:
+            axes.append(('direct', 'strided'))
+            continue
+        access, packing = self.base.type.axes[axis_idx]
+        axis_idx += 1
+        if index.is_slice:
+            step = index.step
+            if step.is_none or (step.has_constant_result() and abs(step.constant_result) == 1):
+                axes.append((access, packing))
+            else:
+                axes.append((access, 'strided'))
+    return self.analyse_operation(env, getting, axes)
+
+def analyse_operation(self, env, getting, axes):
+    self.type = PyrexTypes.MemoryViewSliceType(self.base.type.dtype, axes)
+    return self
+'''
+
+
+class MethodFolder(NodeFolder):
+    """NodeFolder + helpers declared @staticmethod / @classmethod on the model's class (an extracted helper need not take self)"""
+
+    def attribute(self, v, attr, node=None):
+        if isinstance(v, MNode) and attr not in v.attrs and v.cls is not None:
+            for n in v.cls.body:
+                if isinstance(n, ast.FunctionDef) and n.name == attr:
+                    decos = {d.id for d in n.decorator_list if isinstance(d, ast.Name)}
+                    if len(decos) != len(n.decorator_list) or decos - {'staticmethod', 'classmethod'}:
+                        raise Unfoldable('method %s of %s is decorated with %s' % (attr, v.kind, [ast.unparse(d) for d in n.decorator_list]))
+                    clo = Closure(self, n, Env({}, None, v.attrs['__rel__']))
+                    if 'staticmethod' in decos:
+                        return lambda *a, **k: clo(*a, **k)
+                    return lambda *a, **k: clo(v, *a, **k)      # classmethod: the model stands for its class as well
+        return super().attribute(v, attr, node)
+
+
+def _pack_folder(ctx):
+    f = MethodFolder(ctx)
+
+    def none_node(pos, **kw):
+        return _pack_bound('bound', 'absent')
+
+    def slice_node(pos, start=None, stop=None, step=None, **kw):
+        m = MNode('full slice', __kind__='F', is_none=False, is_slice=True, pos=pos, start=start, stop=stop, step=step, __isa__=())
+        m.attrs['analyse_types'] = lambda env: m
+        return m
+    f._globals[(EXN, 'EllipsisNode')] = ELL
+    f._globals[(EXN, 'NoneNode')] = none_node
+    f._globals[(EXN, 'SliceNode')] = slice_node
+    f._globals[(EXN, 'has_np_pythran')] = lambda env: False
+    f._globals[(EXN, 'performance_hint')] = lambda *a, **k: None
+    f._globals[(EXN, 'warning')] = lambda *a, **k: None
+    f._globals[(EXN, 'error_type')] = MNode('error_type', is_error=True)
+    f._globals[(EXN, 'PyrexTypes')] = MNode('module PyrexTypes', c_py_ssize_t_type=MNode('Py_ssize_t'), error_type=MNode('error_type', is_error=True),
+                                            MemoryViewSliceType=lambda dtype, axes: MNode('memoryview type', dtype=dtype, axes=list(axes), ndim=len(axes), is_memoryviewslice=True))
+    return f
+
+
+def rule_pack(ctx):
+    r = Rule('C16-PACK', 'ExprNodes.MemoryViewIndexNode.analyse_types folded on every sequence of index kinds (None, integer, slice x the complete partition of a step at compile time: '
+             'absent, constant 1 / True / -1 / 2 / -2 / 0, run-time value, not computed) for the access/packing layouts of 1- and 2-dimensional views: a sliced axis takes the '
+             'specification of the source axis it consumes, keeps its access mode, and keeps a contig / follow packing only when the stride provably survives the slice '
+             '(no step or constant step 1)', floor=1100)
+    tree = ctx.parse(EXN)
+    cls = next((n for n in tree.body if isinstance(n, ast.ClassDef) and n.name == 'MemoryViewIndexNode'), None)
+    scls = next((n for n in tree.body if isinstance(n, ast.ClassDef) and n.name == 'MemoryViewSliceNode'), None)
+    fdef = next((n for n in (cls.body if cls else []) if isinstance(n, ast.FunctionDef) and n.name == 'analyse_types'), None)
+    if fdef is None or scls is None:
+        raise AnalysisError('C16-PACK: ExprNodes.MemoryViewIndexNode.analyse_types / MemoryViewSliceNode vanished')
+    if [ast.unparse(b) for b in scls.bases] != [cls.name]:
+        raise AnalysisError('C16-PACK: MemoryViewSliceNode no longer derives directly from MemoryViewIndexNode (bases %s)' % [ast.unparse(b) for b in scls.bases])
+    if any(isinstance(n, ast.FunctionDef) and n.name == 'analyse_types' for n in scls.body):
+        raise AnalysisError('C16-PACK: MemoryViewSliceNode now has its own analyse_types; the rule follows the inherited one')
+    params = [a.arg for a in fdef.args.args]
+    if params[:2] != ['self', 'env']:
+        raise AnalysisError('C16-PACK: MemoryViewIndexNode.analyse_types now takes %s' % params)
+    f = _pack_folder(ctx)
+    modules = {'getattr': lambda o, n, *d: f.attribute(o, n), 'setattr': lambda o, n, v: o.attrs.__setitem__(n, v)}
+    seen = set()
+
+    def report(cat, msg):
+        if cat not in seen:
+            seen.add(cat)
+            r.violate('ExprNodes.MemoryViewIndexNode.analyse_types:%s' % cat, EXN, fdef.lineno, msg)
+    n = pack_table(f, 'analyse_types', cls, scls, report, modules)
+    for i in range(n):
+        r.inst(i, nontrivial=True)
+    r.samples.append('%d (layout, index-kind sequence) pairs, e.g. %s on %s' % (n, _pack_show((('S', 'minus-one'), 'I')), PACK_LAYOUTS[5]))
+    hits = []
+    pf = _pack_folder(ctx)
+    pmods = {'getattr': lambda o, n, *d: pf.attribute(o, n), 'setattr': lambda o, n, v: o.attrs.__setitem__(n, v)}
+    pc_index = ast.ClassDef(name='MemoryViewIndexNode', bases=[], keywords=[], body=[ast.parse(_PACK_PC).body[0]], decorator_list=[])
+    pc_slice = ast.ClassDef(name='MemoryViewSliceNode', bases=[], keywords=[], body=[ast.parse(_PACK_PC).body[1]], decorator_list=[])
+    pack_table(pf, 'analyse_types', pc_index, pc_slice, lambda cat, msg: hits.append(cat), pmods)
+    r.positive_control('packing:minus-one' in hits and 'packing:one' not in hits and 'packing:two' not in hits and not any(h.startswith('access') or h == 'axis-count' for h in hits),
+                       'a constant step of -1 treated like a unit step (abs(step) == 1): the reversed view of a contiguous axis stays typed contig')
+    return r
+
+
+# ==============================================================================================================
+# C16-MERGE -- "view[i][j]" compiled as "view[i, j]" (ExprNodes.IndexNode.analyse_as_buffer_operation + MemoryViewSliceNode.merged_indices)
+# ==============================================================================================================
+# Indexing a compile-time slice expression of a memoryview again is rewritten into ONE indexing of the underlying view.  Whatever the rewrite
+# chooses, the single indexing must denote the same axes as NumPy's composition of the two.  Both are computed here on an exact abstraction:
+# every index is one of None / Ellipsis / bare `:` / an opaque slice s_k / an opaque integer i_k (identity kept), an indexing maps a list of axes to
+# a list of axes where each source axis carries the sequence of opaque operations applied to it.  Two indexings with different such normal forms
+# differ for some array (operations are uninterpreted), equal normal forms are the same view.
+TUPLE_CLS = MNode('class TupleNode')
+MERGE_ORIG_KINDS = ('F', 'I', 'SA', 'SO', 'SP', 'N')
+MERGE_IDX_KINDS = ('I', 'F', 'SP', 'N', 'E')
+_MSHOW = {'F': ':', 'I': 'i', 'SA': 'a:', 'SO': ':b', 'SP': '::c', 'N': 'None', 'E': '...'}
+
+
+def _merge_node(kind, tag):
+    pyobj = MNode('object type', is_int=False, is_pyobject=True)
+    if kind in ('F', 'SA', 'SO', 'SP'):
+        bounds = {b: _pack_bound(b, NOT_CONST if p else 'absent') for b, p in zip(BOUND_NAMES, {'F': (0, 0, 0), 'SA': (1, 0, 0), 'SO': (0, 1, 0), 'SP': (0, 0, 1)}[kind])}
+        m = MNode('slice %s%s' % (_MSHOW[kind], tag), __kind__=kind, is_none=False, is_slice=True, pos=POS, __isa__=(), type=pyobj, **bounds)
+    elif kind == 'I':
+        m = MNode('integer index %s' % tag, __kind__='I', is_none=False, is_slice=False, pos=POS, __isa__=(), type=MNode('C integer type', is_int=True, is_pyobject=False))
+    elif kind == 'N':
+        m = MNode('None index', __kind__='N', is_none=True, is_slice=False, pos=POS, __isa__=(), type=pyobj)
+    else:
+        m = MNode('Ellipsis index', __kind__='E', is_none=False, is_slice=False, pos=POS, __isa__=(ELL,), type=pyobj)
+    return m
+
+
+class InvalidIndexing(Exception):
+    pass
+
+
+def index_normal_form(nodes, axes):
+    """apply one index list (model nodes) to a list of axes; axis = ('src', k, ops) | ('new', ops).  -> (result axes, consumed {k: ops}, checks)"""
+    kinds = [n.attrs['__kind__'] for n in nodes]
+    if kinds.count('E') > 1:
+        raise InvalidIndexing('several Ellipsis')
+    consuming = sum(1 for k in kinds if k not in ('N', 'E'))
+    if consuming > len(axes):
+        raise InvalidIndexing('too many indices')
+    fill = [None] * (len(axes) - consuming)
+    if 'E' in kinds:
+        j = kinds.index('E')
+        seq = list(nodes[:j]) + fill + list(nodes[j + 1:])
+    else:
+        seq = list(nodes) + fill
+    out, consumed, checks, pos = [], {}, [], 0
+    for n in seq:
+        k = 'F' if n is None else n.attrs['__kind__']
+        if k == 'N':
+            out.append(('new', ()))
+            continue
+        ax = axes[pos]
+        pos += 1
+        if k == 'F':
+            out.append(ax)
+        elif k == 'I':
+            if ax[0] == 'new':
+                checks.append(('index-into-length-1', id(n)))
+            else:
+                consumed[ax[1]] = ax[2] + (('I', id(n)),)
+        else:
+            out.append(('new', ax[1] + (('S', id(n)),)) if ax[0] == 'new' else ('src', ax[1], ax[2] + (('S', id(n)),)))
+    return out, consumed, sorted(checks)
+
+
+def merge_domain():
+    """(ndim, first-level kinds as unellipsify leaves them, second-level kinds).  First level: exactly ndim consuming entries, at least one slice / None (it is a slice
+    expression), at most one None and at most one partial slice; every partial-slice kind for ndim <= 2, the step-only slice as the representative for ndim 3.
+    Second level: every list of length <= 2 over its kinds with at most one Ellipsis that is valid for the slice, and the lists of three integer / Ellipsis entries."""
+    partial = ('SA', 'SO', 'SP')
+    for ndim in (1, 2, 3):
+        for n in range(ndim, ndim + (2 if ndim < 3 else 1)):
+            for orig in itertools.product(MERGE_ORIG_KINDS, repeat=n):
+                if sum(1 for k in orig if k != 'N') != ndim or all(k == 'I' for k in orig):
+                    continue
+                if sum(1 for k in orig if k in partial) > 1 or (ndim == 3 and any(k in ('SA', 'SO') for k in orig)):
+                    continue
+                res_ndim = sum(1 for k in orig if k != 'I')
+                for m in (1, 2, 3):
+                    for idx in itertools.product(MERGE_IDX_KINDS, repeat=m):
+                        if idx.count('E') > 1 or sum(1 for k in idx if k not in ('N', 'E')) > res_ndim:
+                            continue
+                        if m == 3 and not set(idx) <= {'I', 'E'}:
+                            continue
+                        yield ndim, orig, idx
+
+
+def _merge_show(orig, idx):
+    return 'm[%s][%s]' % (', '.join(_MSHOW[k] for k in orig), ', '.join(_MSHOW[k] for k in idx))
+
+
+def merge_table(folder, fdef, slice_cls, index_cls, report, modules, want_ellipsis, inst, only_ndim=None):
+    scls, sconsts = _merged_class([slice_cls, index_cls])
+    n = 0
+    for ndim, orig, idx in merge_domain():
+        if ('E' in idx or 'N' in idx) != want_ellipsis or (only_ndim is not None and ndim != only_ndim):
+            continue
+        n += 1
+        what = _merge_show(orig, idx)
+        inst('%d:%s:%s' % (ndim, '.'.join(orig), '.'.join(idx)), what)
+        onodes = [_merge_node(k, '#%d' % j) for j, k in enumerate(orig)]
+        inodes = [_merge_node(k, "'%d" % j) for j, k in enumerate(idx)]
+        src_axes = [('src', k, ()) for k in range(ndim)]
+        mid_axes, mid_consumed, mid_checks = index_normal_form(onodes, src_axes)
+        # what NumPy's composition denotes
+        out2, cons2, checks2 = index_normal_form(inodes, mid_axes)
+        want = (out2, {**mid_consumed, **cons2}, sorted(mid_checks + checks2))
+        inner = MNode('memoryview variable', type=MNode('memoryview type', ndim=ndim, is_memoryviewslice=True, is_buffer=False, is_pythran_expr=False),
+                      is_memview_slice=False, pos=POS, __isa__=())
+        base = MNode('MemoryViewSliceNode', scls, **dict(dict(PACK_NODE_DEFAULTS, **sconsts),
+            base=inner, original_indices=list(onodes), is_memview_slice=True, pos=POS, __rel__=EXN, __isa__=(),
+            type=MNode('memoryview type', ndim=len(mid_axes), is_memoryviewslice=True, is_buffer=False, is_pythran_expr=False)))
+        made = []
+
+        def make(label):
+            def ctor(pos, indices=None, base=None, **kw):
+                m = MNode(label, indices=indices, base=base, pos=pos, __isa__=())
+                m.attrs['analyse_types'] = lambda env, getting=True: m
+                made.append(m)
+                return m
+            return ctor
+        folder._globals[(EXN, 'MemoryViewSliceNode')] = make('MemoryViewSliceNode()')
+        folder._globals[(EXN, 'MemoryViewIndexNode')] = make('MemoryViewIndexNode()')
+        if len(inodes) == 1:
+            index = inodes[0]
+        else:
+            index = MNode('TupleNode', args=list(inodes), pos=POS, __isa__=(TUPLE_CLS,), is_none=False, is_slice=False)
+        selfm = MNode('IndexNode', None, base=base, index=index, pos=POS, __rel__=EXN, __isa__=())
+        folder.steps = 0
+        try:
+            res = Closure(folder, fdef, Env(dict(modules), None, EXN))(selfm, MNode('scope', nogil=False, directives={}), True)
+        except Unfoldable as x:
+            raise AnalysisError('C16-MERGE cannot fold analyse_as_buffer_operation for %s: %s' % (what, x))
+        except AnalysisError:
+            raise
+        except Exception as x:
+            report('crash', '%s: analyse_as_buffer_operation raises %s: %s' % (what, type(x).__name__, x))
+            continue
+        if not (isinstance(res, MNode) and res in made and isinstance(res.attrs.get('indices'), list)):
+            raise AnalysisError('C16-MERGE: analyse_as_buffer_operation for %s does not return a memoryview index/slice node' % what)
+        rbase, rind = res.attrs['base'], res.attrs['indices']
+        if not all(isinstance(x, MNode) and '__kind__' in x.attrs for x in rind):
+            raise AnalysisError('C16-MERGE: %s is compiled with indices that are not index nodes' % what)
+        try:
+            if rbase is base:
+                got_axes = mid_axes
+                o, c, k = index_normal_form(rind, mid_axes)
+                got = (o, {**mid_consumed, **c}, sorted(mid_checks + k))
+            elif rbase is inner:
+                got = index_normal_form(rind, src_axes)
+                got = (got[0], got[1], got[2])
+            else:
+                raise AnalysisError('C16-MERGE: %s is compiled as an indexing of an object the model does not know' % what)
+        except InvalidIndexing as x:
+            got = ('invalid', str(x))
+        if got != want:
+            merged = rbase is inner
+            cat = ('merged' if merged else 'unmerged') + (':ellipsis' if 'E' in idx else ':newaxis' if 'N' in idx else '') + \
+                  (':partial-slice' if any(k in ('SA', 'SO', 'SP') for k in orig) else '')
+            shown = 'm[%s]' % ', '.join(_MSHOW[x.attrs['__kind__']] + ("'" if any(x is y for y in inodes) else '') for x in rind)
+            report(cat, '%s (ndim %d) is compiled as the single indexing %s of %s, which does not address the same axes as indexing the slice again does (NumPy semantics): '
+                        'the second-level index is applied to the wrong axis or a slice of the first level is lost, so other elements / another shape result'
+                   % (what, ndim, shown, 'the underlying view' if merged else 'the slice'))
+    return n
+
+
+_MERGE_PC = '''
+def analyse_as_buffer_operation(self, env, getting):
+    if isinstance(self.index, TupleNode):
+        indices = self.index.args
+    else:
+        indices = [self.index]
+    base = self.base
+    base_type = base.type
+    from . import MemoryView
+    if base.is_memview_slice:
+        merged_indices = base.merged_indices(indices)
+        if merged_indices is not None:
+            base = base.base
+            base_type = base.type
+            indices = merged_indices
+    have_slices, indices, newaxes = MemoryView.unellipsify(indices, base_type.ndim)
+    if have_slices:
+        return MemoryViewSliceNode(self.pos, indices=indices, base=base)
+    return MemoryViewIndexNode(self.pos, indices=indices, base=base)
+
+def merged_indices(self, indices):
+    if not indices:
+        return None
+    new_indices = self.original_indices[:]
+    indices = indices[:]
+    for i, s in enumerate(self.original_indices):
+        if s.is_slice:
+            if s.start.is_none and s.stop.is_none:
+                new_indices[i] = indices[0]
+                indices.pop(0)
+                if not indices:
+                    return new_indices
+            else:
+                return None
+        elif not s.type.is_int:
+            return None
+    return None
+'''
+
+
+def _rule_merge(ctx, rid, want_ellipsis, floor):
+    r = Rule(rid, 'ExprNodes: "view[a][b]" rewritten into one indexing of the view (IndexNode.analyse_as_buffer_operation with MemoryViewSliceNode.merged_indices folded on model nodes) '
+             'denotes the same axes as indexing the slice again, for every first-level index list of a 1..3-dimensional view over (`:`, integer, slice with only a start / stop / step, None) '
+             'and every second-level index list of length <= 3 over %s' % ('(integer, `:`, stepped slice, None, one Ellipsis) that contains None or an Ellipsis' if want_ellipsis else '(integer, `:`, stepped slice)'), floor=floor)
+    tree = ctx.parse(EXN)
+    classes = {n.name: n for n in tree.body if isinstance(n, ast.ClassDef)}
+    for c in ('IndexNode', 'MemoryViewIndexNode', 'MemoryViewSliceNode'):
+        if c not in classes:
+            raise AnalysisError('%s: class ExprNodes.%s vanished' % (rid, c))
+    fdef = next((n for n in classes['IndexNode'].body if isinstance(n, ast.FunctionDef) and n.name == 'analyse_as_buffer_operation'), None)
+    if fdef is None or [a.arg for a in fdef.args.args] != ['self', 'env', 'getting']:
+        raise AnalysisError('%s: IndexNode.analyse_as_buffer_operation(self, env, getting) vanished' % rid)
+    if not any(isinstance(n, ast.FunctionDef) and n.name == 'merged_indices' for n in classes['MemoryViewSliceNode'].body + classes['MemoryViewIndexNode'].body):
+        raise AnalysisError('%s: merged_indices vanished from the memoryview slice node' % rid)
+    seen = set()
+
+    def report(cat, msg):
+        if cat not in seen:
+            seen.add(cat)
+            r.violate('ExprNodes.IndexNode.analyse_as_buffer_operation:%s' % cat, EXN, fdef.lineno, msg)
+
+    def folder():
+        f = _pack_folder(ctx)
+        f._globals[(EXN, 'TupleNode')] = TUPLE_CLS
+        return f, {'getattr': lambda o, n, *d: f.attribute(o, n), 'setattr': lambda o, n, v: o.attrs.__setitem__(n, v)}
+    f, mods = folder()
+    cnt = [0]
+
+    def inst(key, what):
+        cnt[0] += 1
+        r.inst(key, sample=what if cnt[0] % 97 == 1 else None, nontrivial=True)
+    merge_table(f, fdef, classes['MemoryViewSliceNode'], classes['MemoryViewIndexNode'], report, mods, want_ellipsis, inst)
+    # positive control: a slice with a step taken for a full slice
+    hits = []
+    pf, pmods = folder()
+    pc_slice = ast.ClassDef(name='MemoryViewSliceNode', bases=[], keywords=[], body=[ast.parse(_MERGE_PC).body[1]], decorator_list=[])
+    pc_index = ast.ClassDef(name='MemoryViewIndexNode', bases=[], keywords=[], body=[], decorator_list=[])
+    merge_table(pf, ast.parse(_MERGE_PC).body[0], pc_slice, pc_index, lambda cat, msg: hits.append(cat), pmods, False, lambda *a: None, only_ndim=1)
+    r.positive_control(any(h.startswith('merged') and h.endswith(':partial-slice') for h in hits),
+                       'merged_indices that takes `::c` for a full slice: m[::c][i] compiled as m[i]')
+    return r
+
+
+def rule_merge(ctx):
+    """second-level index lists over integers and slices: every entry consumes exactly one axis of the slice"""
+    return _rule_merge(ctx, 'C16-MERGE', False, 900)
+
+
+def rule_merge_newaxis(ctx):
+    """second-level index lists that contain None or an Ellipsis (entries that consume no / several axes)"""
+    return _rule_merge(ctx, 'C16-MERGE-NEW', True, 1700)
